@@ -258,7 +258,7 @@ prop("C13", "exploration",
      [{"name": "c13", "cmd": "c13", "shards": {"quick": 12, "thorough": 16}, "crash_is_violation": True}],
      {"quick": 5000, "thorough": 100000},
      ["a request with valid ciphertext under the current key but another envelope method string is a don't-care (the statement only forbids effects of unauthenticated requests)"],
-     required_hist=["key-exchange:plaintext", "key-exchange:encrypted-reinit", "authenticated:inner-ok", "authenticated:inner-error", "unauthenticated:plaintext-call", "unauthenticated:envelope-under-superseded-key", "unauthenticated:bit-flipped-body", "unauthenticated:batch-array", "unauthenticated:batch-array-with-key-exchange", "authenticated:batch-with-key-exchange"])
+     required_hist=["key-exchange:plaintext", "key-exchange:encrypted-reinit", "authenticated:inner-ok", "authenticated:inner-error", "unauthenticated:plaintext-call", "unauthenticated:envelope-under-superseded-key", "unauthenticated:bit-flipped-body", "unauthenticated:batch-array", "unauthenticated:batch-array-with-key-exchange", "authenticated:batch-with-key-exchange", "in-flight-request-answered-under-its-own-key"])
 
 prop("C14", "exploration",
      "wallets opened with a keychain mask through api::Owner::open_wallet (their tokens must differ); 30 api::Owner methods (each with arguments valid for the current state: own initiated / locked slates, a "
